@@ -347,6 +347,106 @@ func c13Scenario(c *choice.Ctx, rep *report.R, minK, maxK int, rich bool, fullSe
 	rep.State(fmt.Sprintf("%s|%d|%d|%v|%d", kind, k, limit, obs, len(segs)))
 }
 
+// c13BadFrame: a frame that cannot be a query (shorter than a header, a bare header cut off, garbage, empty) stands between valid
+// pipelined queries. The listener gives the connection up there (or, if it chose to go on, it goes on in step): whatever it answers,
+// it never serves a later valid query while skipping an earlier one, and the response stream stays well-framed.
+func c13BadFrame(c *choice.Ctx, rep *report.R) {
+	own := env.InstallOwn(0xA5, vRace)
+	defer env.UninstallOwn()
+	kind := []string{"tcp", "gnet"}[c.Choose(2, "listener")]
+	bads := [][]byte{{0, 1, 7}, {0, 5, 1, 2, 3, 4, 5}, append([]byte{0, 11}, make([]byte, 11)...), append([]byte{0, 12}, refdns.Query(0x13AA, refdns.N("x"), 1, 1).Encode(false)[:12]...),
+		refdns.Frame([]byte{0xde, 0xad, 0xbe, 0xef, 1, 2, 3, 4, 5, 6, 7, 8, 9, 10, 11, 12, 13, 14, 15, 16}), {0, 0}, {0, 2, 0x13, 0x02}}
+	bi := c.Choose(len(bads), "bad-frame")
+	pos := 1 + c.Choose(2, "bad-frame-position") // after the first / after the second valid query
+	oneSegment := c.Choose(2, "one-segment") == 1
+	desc := fmt.Sprintf("listener=%s bad frame %x after valid query #%d, one segment=%v", kind, bads[bi], pos, oneSegment)
+	fail := func(sig, msg string) {
+		rep.Violate("C13:"+kind+":bad-frame:"+sig, msg+"\n  "+desc, map[string]any{"Choices": c.Choices(), "BadFrame": true})
+	}
+	v, err := vNewRouter(c03Config("forward"), "u1")
+	if err != nil {
+		fail("router-start", err.Error())
+		return
+	}
+	defer v.Close()
+	v.ups["u1"].Auto = func(q *upQuery) *upResult {
+		if q.Msg == nil {
+			return &upResult{err: errScripted}
+		}
+		return &upResult{wire: env.Answer(q.Msg, 3, 60).Encode(false)}
+	}
+	var send func([]byte)
+	var written func() []byte
+	var closedByServer func() bool
+	if kind == "tcp" {
+		sc := v.tcpClient(v.newTCPServer(100, 100*time.Second), vClientV4, vLocalV4)
+		send, written = func(b []byte) { sc.Send(b) }, func() []byte { return sc.impl.Written() }
+		closedByServer = func() bool { return sc.done || sc.impl.IsClosed() }
+	} else {
+		g := v.gnetClient(v.newGnetServer(100, 100*time.Second), vClientV4, vLocalV4)
+		send, written = func(b []byte) { g.Send(b) }, g.Written
+		closedByServer = g.Closed
+	}
+	var parts [][]byte
+	for i := 0; i < 4; i++ {
+		if i == pos {
+			parts = append(parts, bads[bi])
+		}
+		parts = append(parts, refdns.Frame(c13Query(i).Encode(false)))
+	}
+	if oneSegment {
+		var all []byte
+		for _, p := range parts {
+			all = append(all, p...)
+		}
+		send(all)
+		wait()
+	} else {
+		for _, p := range parts {
+			send(p)
+			wait()
+		}
+	}
+	hsleep(7 * time.Second)
+	wait()
+	fs, rest := env.SplitFrames(written())
+	if rest != 0 {
+		fail("stream-not-framed", fmt.Sprintf("response stream has %d trailing bytes", rest))
+	}
+	answered := map[int]int{}
+	for _, f := range fs {
+		m, err := refdns.Decode(f)
+		if err != nil {
+			fail("frame-undecodable", fmt.Sprintf("%x", f))
+			continue
+		}
+		if int(m.ID) >= 0x1300 && int(m.ID) < 0x1304 {
+			answered[int(m.ID)-0x1300]++
+		} else if !(bi == 3 || bi == 6) { // (the header-only / 2-octet frames carry an id of their own: a FORMERR-style answer to them is the listener's business)
+			fail("unexpected-response", fmt.Sprintf("a response with id %#x that no valid query had", m.ID))
+		}
+	}
+	for i := 0; i < 4; i++ {
+		if answered[i] > 1 {
+			fail("response-duplicated", fmt.Sprintf("query #%d answered %d times", i, answered[i]))
+		}
+		// (a query in front of the bad frame may lose its response: the listener closes the connection at the bad frame, possibly
+		// before the earlier handler has written - the client sent garbage, the listener owes it nothing more)
+		if i >= pos && answered[i] == 0 && !closedByServer() {
+			fail("kept-open-but-unanswered", fmt.Sprintf("the listener kept the connection open after the bad frame, yet valid query #%d behind it has no response 7 s later: the stream is out of step", i))
+		}
+		if i > pos && answered[i] == 1 && answered[i-1] == 0 {
+			fail("skipped-query", fmt.Sprintf("valid query #%d behind the bad frame was answered although valid query #%d in front of it was not: the stream got out of step", i, i-1))
+		}
+	}
+	v.Close()
+	for _, x := range own.Audit() {
+		fail("ownership", x)
+	}
+	rep.Eval(desc + fmt.Sprint(answered))
+	rep.State(fmt.Sprintf("bad|%s|%d|%v", kind, bi, answered))
+}
+
 func TestVerifC13(t *testing.T) {
 	rep := report.New("C13 stream framing")
 	defer rep.Write()
@@ -355,6 +455,7 @@ func TestVerifC13(t *testing.T) {
 	full := report.ParamInt("FULLSEG", 0) == 1
 	rep.Rule = fmt.Sprintf("E3 differential: k in 1..%d pipelined queries (distinct ids, 36..110 byte frames; every query but the first carries a complete framed query with an id nobody sent inside an EDNS padding option, and the mid-body cut falls right in front of it) x every subset of the candidate cuts {inside the length prefix, prefix|body, after the first body byte, mid body, before the last byte, frame|frame}; k = %d with the coarse cuts {inside prefix, mid body, frame|frame}%s "+
 		"x per-connection limit {100,1,2} x every completion order of the accepted handlers x {responses written directly, response writes parked and released in reverse order} x {fresh listener, an earlier connection left a partial frame behind, an earlier connection was closed with a query in flight that is answered after this connection was opened} x (tcp) {no pause, a pause longer than the idle timeout before the last segment while queries are in flight}; the same script is fed to tcpServer.handleConn and to gnetServer.OnTraffic (fake gnet.Conn, one OnTraffic per segment); "+
+		"plus 4 pipelined queries with a frame that cannot be a query (7 kinds: 1 / 5 / 11 octets, a bare header, garbage, empty, 2 octets) behind the first or second, in one segment or frame by frame: none behind it is answered while an earlier one is skipped, and a listener that keeps the connection open answers all of them; "+
 		"oracle: every frame decoded exactly once, response stream is a concatenation of well-formed frames, one response per query id, surplus over the limit gets REFUSED, none dropped",
 		maxK, coarseK, map[bool]string{true: "; a single 19-byte query in every one of its 2^18 segmentations", false: ""}[full])
 	bubble(t, func() {
@@ -368,6 +469,8 @@ func TestVerifC13(t *testing.T) {
 			st = runExplore(t, rep, -1, func(c *choice.Ctx) { c13Scenario(c, rep, 1, 1, false, true) })
 			rep.Count("executions_fullseg", st.Executions)
 		}
+		st = runExplore(t, rep, -1, func(c *choice.Ctx) { c13BadFrame(c, rep) })
+		rep.Count("executions_bad_frame", st.Executions)
 	})
 	rep.Sample(map[string]any{"listener": "gnet", "k": 2, "segments": "[1 40 3 ...]", "limit": 1, "expect": "id 0x1300 answered, id 0x1301 REFUSED, two well-formed frames"})
 }
